@@ -40,6 +40,7 @@ THE FULL STATEMENTS (what the property says):
 -/
 import Restful.Lemmas.RegistryTotal
 import Restful.Lemmas.StateShape
+import Restful.Lemmas.TieImpPrefix
 namespace Restful
 namespace Props
 open Registry
@@ -365,3 +366,7 @@ end Witnesses
 
 end Props
 end Restful
+
+-- the imperative functions this property's model rests on, tied to their statement-by-statement
+-- translation (tools/goimp, Gen/Imp.lean, regenerated on every run):
+-- also: Restful.TieImp.T2.fixed_prefix_path
